@@ -120,8 +120,16 @@ func genC02(r *Rand, tier string) []Case {
 			var sub []string
 			q.Where = genPred(r, t, 1, &sub)
 		}
+		nontrivial := len(t.rows) >= 1
+		if r.Chance(6) {
+			// the same select list over dual: one result row computed from constants (columns are missing)
+			q.From = &From{K: "dual"}
+			q.Where = nil
+			tags = append(tags, "from:dual")
+			nontrivial = true
+		}
 		tags = append(tags, fmt.Sprintf("items:%d", len(items)))
-		out = append(out, mkCase(doc, q, tags, len(t.rows) >= 1))
+		out = append(out, mkCase(doc, q, tags, nontrivial))
 	}
 	return out
 }
